@@ -14,9 +14,15 @@ struct Rec<T: Clone> {
     script: Vec<T>,
     k: usize,
     log: Vec<(usize, Vec<T>)>,
+    /// panic (once) when asked for the call with this number
+    panic_at: Option<usize>,
 }
 impl<T: Clone> Conditional<T> for Rec<T> {
     fn sample(&mut self, i: usize, given: &[T]) -> T {
+        if self.panic_at == Some(self.k) {
+            self.panic_at = None;
+            panic!("scripted failure of the user's conditional");
+        }
         self.log.push((i, given.to_vec()));
         let v = self.script[self.k % self.script.len()].clone();
         self.k += 1;
@@ -27,6 +33,13 @@ impl<T: Clone> Conditional<T> for Rec<T> {
 trait Tok: Clone + Debug + PartialEq + Send + Sync + ndarray::LinalgScalar + num_traits::ToPrimitive {
     fn tok(&self) -> String;
     fn gen(r: &mut Sm) -> Self;
+    /// identity of two values as the chain stores them (bit patterns for floats, so that NaN answers can be scripted)
+    fn same(&self, o: &Self) -> bool {
+        self == o
+    }
+}
+fn same_vec<T: Tok>(a: &[T], b: &[T]) -> bool {
+    a.len() == b.len() && a.iter().zip(b).all(|(x, y)| x.same(y))
 }
 impl Tok for i64 {
     fn tok(&self) -> String {
@@ -49,7 +62,11 @@ impl Tok for f64 {
         h64(*self)
     }
     fn gen(r: &mut Sm) -> Self {
-        r.normal() * 3.0
+        // a conditional may answer NaN (0/0 in a degenerate model, a missing-value marker) or an infinity
+        if r.coin(0.06) { *r.pick(&[f64::NAN, f64::INFINITY, -0.0]) } else { r.normal() * 3.0 }
+    }
+    fn same(&self, o: &Self) -> bool {
+        self.to_bits() == o.to_bits()
     }
 }
 impl Tok for f32 {
@@ -57,7 +74,10 @@ impl Tok for f32 {
         h32(*self)
     }
     fn gen(r: &mut Sm) -> Self {
-        r.normal() as f32
+        if r.coin(0.06) { *r.pick(&[f32::NAN, f32::NEG_INFINITY, 0.0]) } else { r.normal() as f32 }
+    }
+    fn same(&self, o: &Self) -> bool {
+        self.to_bits() == o.to_bits()
     }
 }
 
@@ -77,11 +97,15 @@ fn one<T: Tok>(out: &mut Out, rng: &mut Sm, tyname: &str, small: bool) {
     let via_run = rng.coin(0.4);
     let n_chains = if via_run { rng.range(1, 8) as usize } else { 1 };
     let n_discard = rng.below(nsteps as u64 + 1) as usize;
+    // via run(): the steps are split over two consecutive run() calls on the same sampler (the chains' conditionals keep
+    // their state between the calls); via step(): in a fifth of the cases the conditional fails once, at a scripted call
+    let split = rng.below(nsteps as u64 + 1) as usize;
+    let panic_at: Option<usize> = if !via_run && rng.coin(0.2) { Some(rng.below((d * nsteps) as u64) as usize) } else { None };
     if !out.selected(&id) {
         return;
     }
     guard_case(out, &id.clone(), "C05:panic", (d * nsteps) as u64, |out| {
-        let cond = Rec { script: script.clone(), k: 0, log: vec![] };
+        let cond = Rec { script: script.clone(), k: 0, log: vec![], panic_at };
         let case = |cid: &str| {
             format!(
                 "c05 {cid} {nsteps} ; {} ; {}",
@@ -92,6 +116,12 @@ fn one<T: Tok>(out: &mut Out, rng: &mut Sm, tyname: &str, small: bool) {
         if via_run {
             // the same start state in every chain: every chain must produce the same log (clones of one conditional)
             let mut s = GibbsSampler::new(cond, vec![s0.clone(); n_chains]);
+            // first `split` steps in one run() (all discarded or all collected), the rest in a second one
+            if split > 0 {
+                let _ = if split % 2 == 0 { s.run(split, 0) } else { s.run(0, split) }.expect("stack");
+                out.count("two_consecutive_runs");
+            }
+            let (nsteps, n_discard) = (nsteps - split, n_discard.min(nsteps - split));
             let a = s.run(nsteps - n_discard, n_discard).expect("stack");
             for ch in 0..n_chains {
                 let c = &s.chains[ch];
@@ -101,7 +131,7 @@ fn one<T: Tok>(out: &mut Out, rng: &mut Sm, tyname: &str, small: bool) {
                 // returned rows: the last collected row is the chain's current state
                 if nsteps - n_discard > 0 {
                     let last = a.slice(ndarray::s![ch, nsteps - n_discard - 1, ..]).to_vec();
-                    if last != c.current_state {
+                    if !same_vec(&last, &c.current_state) {
                         out.fail(&cid, "C05:run-last-row", "last row returned by run() is not the chain's current state", d as u64, format!("{last:?} vs {:?}", c.current_state));
                     }
                 }
@@ -109,6 +139,28 @@ fn one<T: Tok>(out: &mut Out, rng: &mut Sm, tyname: &str, small: bool) {
             out.count("via_run");
         } else {
             let mut c = GibbsMarkovChain::new(cond, &s0);
+            if let Some(pa) = panic_at {
+                // sweeps until the scripted failure, which is caught; then one more (complete) sweep
+                let full = pa / d;
+                for _ in 0..full {
+                    c.step();
+                }
+                let r = std::panic::catch_unwind(std::panic::AssertUnwindSafe(|| {
+                    c.step();
+                }));
+                if r.is_ok() {
+                    out.fail(&id, "C05:no-panic", "the scripted failure of the conditional did not surface", d as u64, String::new());
+                }
+                c.step();
+                let line = format!("{id} {} # {} # {}", log_str(&c.target.log), toks(&c.current_state), c.target.k);
+                out.case(
+                    format!("c05p {id} {d} {pa} ; {} ; {}", s0.iter().map(|x| x.tok()).collect::<Vec<_>>().join(" "), script.iter().map(|x| x.tok()).collect::<Vec<_>>().join(" ")),
+                    line,
+                );
+                out.count("conditional_failed_mid_sweep");
+                out.nontrivial(&format!("{tyname}:{d}:panic:{pa}"));
+                return;
+            }
             for _ in 0..nsteps {
                 let before = c.current_state.clone();
                 let lb = c.target.log.len();
@@ -119,7 +171,7 @@ fn one<T: Tok>(out: &mut Out, rng: &mut Sm, tyname: &str, small: bool) {
                 }
                 for (j, (i, given)) in c.target.log[lb..].iter().enumerate() {
                     let expect: Vec<T> = r[..j.min(d)].iter().chain(before[j.min(d)..].iter()).cloned().collect();
-                    if *i != j || *given != expect {
+                    if *i != j || !same_vec(given, &expect) {
                         out.fail(&id, "C05:stale-or-misordered", "call did not receive the freshest state / wrong coordinate order", d as u64,
                             format!("call {j}: index {i}, given {:?}, expected {:?}", given, expect));
                         break;
